@@ -58,11 +58,26 @@ class CW:
     # ---------------------------------------------------------------- raw MIR scan of accesses
     def scan_accesses(self):
         """Every place in the crate where the address of RcInner.state is taken, and what is done
-        with it. Returns list of dicts {fn, bb, op, loc}."""
+        with it. Returns list of dicts {fn, bb, op, loc}.
+        A reference to the word may be copied, reborrowed and handed to a helper a refactoring introduced (`replace_word(&self.state,
+        ..)`, read inlined by the path reader): the helper's parameter then holds it, and the helper's atomic operations on that
+        parameter are accesses of the functions that reach it. Anything else done with the reference is unclassifiable."""
+        if getattr(self, "_scan", None) is not None:
+            return self._scan
         out = []
-        for name, b in self.prog.bodies.items():
+        inl = self.prog.auto_inline()
+        param_holders = {}          # helper name -> set of parameter locals that receive the reference
+        work = [(name, None) for name in self.prog.bodies]
+        done = set()
+        while work:
+            name, _ = work.pop()
+            b = self.prog.bodies[name]
+            key = (name, tuple(sorted(param_holders.get(name, ()))))
+            if key in done:
+                continue
+            done.add(key)
             reach = b.reachable()
-            holders = {}
+            holders = {l: None for l in param_holders.get(name, ())}
             for bi in sorted(reach):
                 blk = b.blocks[bi]
                 for si, st in enumerate(blk["stmts"]):
@@ -86,11 +101,35 @@ class CW:
                         holders[st["place"]["local"]] = (bi, si)
             if not holders:
                 continue
-            # every use of a holder must be argument 0 of an atomic op
+            # copies and reborrows of a holder hold the reference too (fixpoint over the straight-line assignments)
+            changed = True
+            while changed:
+                changed = False
+                for bi in sorted(reach):
+                    for si, st in enumerate(b.blocks[bi]["stmts"]):
+                        if st["k"] != "assign" or st["place"]["proj"] or st["place"]["local"] in holders:
+                            continue
+                        rv = st["rv"]
+                        src = None
+                        if rv["k"] == "use":
+                            src = _op_local(rv["op"])
+                        elif rv["k"] in ("ref", "rawptr"):
+                            pl = rv.get("place")
+                            if pl and pl["local"] in holders and all((isinstance(e, dict) and e.get("k") == "deref") or e == "deref"
+                                                                     or (isinstance(e, dict) and e.get("deref")) for e in pl["proj"]) \
+                                    and pl["proj"]:
+                                src = pl["local"]
+                        if src is not None and src in holders:
+                            holders[st["place"]["local"]] = (bi, si)
+                            changed = True
+            derived = {l for l, v in holders.items()}
+            # every other use of a holder must be argument 0 of an atomic op, or an argument of an inlined helper
             for bi in sorted(reach):
                 blk = b.blocks[bi]
                 for si, st in enumerate(blk["stmts"]):
                     if st["k"] == "assign":
+                        if not st["place"]["proj"] and st["place"]["local"] in derived and holders.get(st["place"]["local"]) == (bi, si):
+                            continue       # the assignment that made it a holder
                         for p in _places_in_rvalue(st["rv"]):
                             if p["local"] in holders:
                                 raise AnalysisError("%s: reference to RcInner.state flows into `%s` (not an atomic op)"
@@ -102,6 +141,13 @@ class CW:
                     if not used:
                         continue
                     nt = norm(c.target or "")
+                    if (c.target or "") in inl and self.prog.bodies[c.target].kind != "closure":
+                        ph = param_holders.setdefault(c.target, set())
+                        before = len(ph)
+                        ph.update(i + 1 for i in used)
+                        if len(ph) != before or (c.target, tuple(sorted(ph))) not in done:
+                            work.append((c.target, None))
+                        continue
                     if used != [0] or not nt.startswith(ATOMIC_PREFIX):
                         raise AnalysisError("%s: reference to RcInner.state passed to `%s`" % (name, nt))
                     op = nt[len(ATOMIC_PREFIX):]
@@ -109,7 +155,12 @@ class CW:
                     for root in self.prog.roots_of(name):
                         out.append({"fn": root, "bb": bi, "op": op, "loc": b.loc(bi), "exp": t["span"]["exp"],
                                     "file": t["span"]["file"], "in": name})
-        return out
+        # (a body scanned twice - first without, then with parameter holders - reports its own accesses twice)
+        uniq = {}
+        for a in out:
+            uniq[(a["fn"], a["in"], a["bb"], a["op"])] = a
+        self._scan = list(uniq.values())
+        return self._scan
 
     # ---------------------------------------------------------------- term helpers
     def state_obj(self, term):
